@@ -56,6 +56,7 @@ package kvql
 //
 //@ func (p *LimitPlan) Batch(ctx *ExecuteCtx) (ret []KVPair, err error)
 //@   props C08 C13
+//@   ensures[C08] ownrows: err == nil ==> isnil(ret) || fresh(ret)
 //@   ensures[C13] norows: err != nil ==> len(ret) == 0
 //@   requires limInv(p) && !failed && PlanBatchSize >= 1
 //@   assigns p.current, p.skips, pcur(p.ChildPlan), nops, failed, lastErr, ctx.Hit, mapof(ctx.FieldCaches), mapof(ctx.FieldChunkKeyCaches), mapof(ctx.FieldChunkCaches)
@@ -146,6 +147,7 @@ package kvql
 //
 //@ func (p *FinalLimitPlan) Batch(ctx *ExecuteCtx) (ret [][]Column, err error)
 //@   props C08 C13
+//@   ensures[C08] ownrows: err == nil ==> isnil(ret) || fresh(ret)
 //@   ensures[C13] norows: err != nil ==> len(ret) == 0
 //@   requires flimInv(p) && !failed && PlanBatchSize >= 1
 //@   assigns p.current, p.skips, fcur(p.ChildPlan), nops, failed, lastErr, ctx.Hit, mapof(ctx.FieldCaches), mapof(ctx.FieldChunkKeyCaches), mapof(ctx.FieldChunkCaches)
